@@ -194,22 +194,7 @@ func c12r2(r *R) {
 	r.check(okT, "handleNetError#timeout→504", ne.Pos(), "timeout ⇒ 504, other OpError ⇒ 502", "connect time-outs are not mapped to 504 (or other network errors not to 502)")
 	// order of the handler list and the fallback
 	er := r.method(".", "HTTPProxy", "errorResponse")
-	var handlers []string
-	idx := map[string]int64{}
-	eachInstr(er, func(ins ssa.Instruction) {
-		st, ok := ins.(*ssa.Store)
-		if !ok {
-			return
-		}
-		f, ok := unbox(st.Val).(*ssa.Function)
-		ia, ok2 := st.Addr.(*ssa.IndexAddr)
-		if ok && ok2 && strings.HasPrefix(refName(f), "handle") {
-			i, _ := constInt(ia.Index)
-			idx[refName(f)] = i
-			handlers = append(handlers, refName(f))
-		}
-	})
-	sort.Slice(handlers, func(i, j int) bool { return idx[handlers[i]] < idx[handlers[j]] })
+	handlers := errorHandlerList(r, er)
 	pos := func(n string) int {
 		for i, x := range handlers {
 			if x == n {
@@ -471,4 +456,62 @@ func c12r6(r *R) {
 			r.check(okSite, site, ta.Pos(), "element type of the copy-buffer pool / internal container", "unchecked type assertion in the request path: a value of another type crashes the process")
 		})
 	}
+}
+
+// errorHandlerList: the classifiers errorResponse consults, in order - the slice literal built in the
+// function (or in a helper split out of it), or a package-level slice it ranges over, initialised once.
+func errorHandlerList(r *R, er *ssa.Function) []string {
+	idx := map[string]int64{}
+	var handlers []string
+	collect := func(fn *ssa.Function) {
+		eachInstr(fn, func(ins ssa.Instruction) {
+			st, ok := ins.(*ssa.Store)
+			if !ok {
+				return
+			}
+			f, ok := unbox(st.Val).(*ssa.Function)
+			ia, ok2 := st.Addr.(*ssa.IndexAddr)
+			if ok && ok2 && strings.HasPrefix(refName(f), "handle") {
+				if _, dup := idx[refName(f)]; dup {
+					return
+				}
+				i, _ := constInt(ia.Index)
+				idx[refName(f)] = i
+				handlers = append(handlers, refName(f))
+			}
+		})
+	}
+	collect(er)
+	if len(handlers) == 0 {
+		// a package-level table: some global slice of classifiers read by errorResponse (or its helpers)
+		var g *ssa.Global
+		eachInstr(er, func(ins ssa.Instruction) {
+			if u, ok := ins.(*ssa.UnOp); ok {
+				if gg, ok := u.X.(*ssa.Global); ok {
+					if pt, ok := gg.Type().Underlying().(*types.Pointer); ok {
+						if sl, ok := pt.Elem().Underlying().(*types.Slice); ok {
+							if _, isFunc := sl.Elem().Underlying().(*types.Signature); isFunc {
+								g = gg
+							}
+						}
+					}
+				}
+			}
+		})
+		if g != nil {
+			stores := 0
+			for _, fn := range r.modFuncsAll() {
+				eachInstr(fn, func(ins ssa.Instruction) {
+					if st, ok := ins.(*ssa.Store); ok && st.Addr == ssa.Value(g) {
+						stores++
+					}
+				})
+			}
+			if stores == 1 {
+				collect(er.Pkg.Func("init"))
+			}
+		}
+	}
+	sort.Slice(handlers, func(i, j int) bool { return idx[handlers[i]] < idx[handlers[j]] })
+	return handlers
 }
